@@ -251,6 +251,34 @@ def parse_streaming(src):
     return found, users, mentions
 
 
+ERROR_REL = "lightmotif-io/src/error.rs"
+
+
+def parse_error_incomplete(src):
+    """error.rs, `impl From<nom::Err<..>> for Error`: does the arm for `Incomplete` panic?  (the model: error_from
+    PIncomplete = Panic 3).  src without comments.  True = unreachable!/panic!/unimplemented!/todo!, False = anything else."""
+    m = re.search(r"\bimpl\b[^{;]*\bFrom\s*<\s*(?:nom\s*::\s*)?Err\s*<[^{;]*\bfor\s+Error\s*\{", src)
+    if not m:
+        raise ParseError("error.rs: no `impl From<nom::Err<..>> for Error`")
+    body, _ = E.block_after(src, m.end() - 1)
+    mm = re.search(r"\bmatch\s+\w+\s*\{", body)
+    if not mm:
+        raise ParseError("error.rs: From<nom::Err>::from without a match")
+    block, _ = E.block_after(body, mm.end() - 1)
+    arms = E.split_arms(block)
+    inc = [(p_, e_) for p_, e_ in arms if re.search(r"\bIncomplete\b", p_)]
+    if not inc:
+        # no arm names it: the catch-all arm (`_` or a lone binder) decides
+        inc = [(p_, e_) for p_, e_ in arms if re.match(r"^\s*(_|[a-z_]\w*)\s*$", p_)]
+    if len(inc) != 1:
+        raise ParseError("error.rs: expected one arm for Incomplete (named or catch-all), found %d" % len(inc))
+    expr = inc[0][1].strip()
+    if expr.startswith("{"):        # a braced arm (split_arms keeps what follows a block without a comma)
+        expr, _ = E.block_after(expr, 0)
+    expr = E.norm(expr).rstrip(";")
+    return bool(re.match(r"^(unreachable|panic|unimplemented|todo)\s*!\s*[\(\[\{]", expr))
+
+
 def parse_abc(src):
     out = {}
     errors = list(E.check_trait_defaults(src))
@@ -312,6 +340,8 @@ def emit(r):
         "Definition gen_parse_streaming : list (list byte) := [%s].\n"
         "Definition gen_parse_space1_users : list (list byte) := [%s].\n"
         "Definition gen_parse_mentions_incomplete : bool := %s.\n"
+        "(* error.rs, impl From<nom::Err<..>> for Error: the arm for Incomplete panics (unreachable!() ..) *)\n"
+        "Definition gen_error_incomplete_panics : bool := %s.\n"
         % (REL, "true" if r["fixed"] else "false",
            "; ".join(_coq_str(p) for p in r["new_prefixes"]),
            "; ".join(_coq_str(p) for p in r["next_prefixes"]),
@@ -320,7 +350,8 @@ def emit(r):
            "; ".join(_coq_str(bytes(t)) for t in r["tags"]),
            "; ".join(_coq_str(t) for t in r["streaming"][0]),
            "; ".join(_coq_str(t) for t in r["streaming"][1]),
-           "true" if r["streaming"][2] else "false"))
+           "true" if r["streaming"][2] else "false",
+           "true" if r["incomplete_panics"] else "false"))
 
 
 def translate():
@@ -332,6 +363,7 @@ def translate():
         psrc = E.strip_comments(open(os.path.join(_repo(), PARSE_REL)).read())
         r["tags"] = parse_tags(psrc)
         r["streaming"] = parse_streaming(psrc)
+        r["incomplete_panics"] = parse_error_incomplete(E.strip_comments(open(os.path.join(_repo(), ERROR_REL)).read()))
     except (ParseError, OSError, ValueError, IndexError, KeyError) as e:
         return dict(ok=False, errors=["transfac_reader: cannot parse (%s | %s | %s): %s" % (REL, PARSE_REL, ABC_REL, e)], notes=[])
     text = emit(r)
@@ -346,7 +378,8 @@ def translate():
     return dict(ok=True, notes=["transfac_reader: last advance = %s; prefixes new=%r next=%r; K=%d/%d; %d line codes" % (
         "buffer.len()" if r["fixed"] else "+= n", r["new_prefixes"], r["next_prefixes"],
         r["abc"]["Dna"]["K"], r["abc"]["Protein"]["K"], len(r["tags"]))
-        + "; parse.rs streaming paths=%r, space1 in %r, names Incomplete/Needed=%s" % tuple(r["streaming"])])
+        + "; parse.rs streaming paths=%r, space1 in %r, names Incomplete/Needed=%s" % tuple(r["streaming"])
+        + "; error.rs Incomplete arm panics=%s" % r["incomplete_panics"]])
 
 
 if __name__ == "__main__":
